@@ -623,8 +623,8 @@ pub fn run_plans(ctx: &Ctx, plans: Vec<Plan>, oracle: &Oracle, wall_cap: Duratio
         cov.transitions += st.transitions;
         cov.states += st.states.len() as u64;
         cov.traces += st.executions;
-        let nt: u64 = nontrivial_counters.iter().map(|k| st.counters.get(*k).copied().unwrap_or(0)).sum();
-        nontrivial += nt;
+        let _ = nontrivial_counters;
+        nontrivial += st.nontrivial;
         per_scenario.push(json!({
             "scenario": plan.scn.to_json(),
             "deviation_bound_requested": plan.bound,
